@@ -404,6 +404,11 @@ pub fn check_c04(input: &[u8], acc: &mut Acc) {
     if again.breaks.len() != m.breaks.len() || again.custom_combo_colors.len() != m.custom_combo_colors.len() {
         viol("record-dropped", format!("breaks {} -> {}, combo colours {} -> {}", m.breaks.len(), again.breaks.len(), m.custom_combo_colors.len(), again.custom_combo_colors.len()), acc);
     }
+    // the background event line is read back as the same background
+    if again.background_file != m.background_file {
+        let class = if m.background_file.contains("//") { "file-name-containing-double-slash" } else { "record-misread" };
+        viol(class, format!("background {:?} is written as an event line that reads back as {:?}", m.background_file, again.background_file), acc);
+    }
     let _ = &mut again;
     if !m.hit_objects.is_empty() || !m.control_points.timing_points.is_empty() {
         acc.nontrivial(&crate::engine::hash64(&enc));
@@ -623,7 +628,7 @@ pub fn text_families(tier: Tier) -> Vec<TextFamily> {
     }
     // (iv) sound byte x extras shapes x node counts x modes
     {
-        let extras = ["", "0:0:0:0:", "1:2:0:0:", "2:0:3:40:", "3:1:0:0:f.wav", "0:3:2:120:"];
+        let extras = ["", "0:0:0:0:", "1:2:0:0:", "2:0:3:40:", "3:1:0:0:f.wav", "0:3:2:120:", "1:2:0:0:f.wav", "0:3:0:50:g.wav", "0:0:0:0:f.wav"];
         let radices = vec![16, extras.len() as u64, 4, 4];
         fams.push(TextFamily {
             name: "hit-sound byte x extras shape x repeat count x mode (circle, slider with node samples, hold)",
